@@ -38,6 +38,7 @@ MUTANTS = [
                                            (P, "            CoapOption::Size1 => 60,\n            CoapOption::Size2 => 28,", "            CoapOption::Size1 => 28,\n            CoapOption::Size2 => 60,")], "Size1/Size2 numbers swapped consistently"),
     m("c05-lwm2m-swapped", ["C05"], [(P, "            11542 => Ok(ContentFormat::ApplicationVndOmaLwm2mTlv),\n            11543 => Ok(ContentFormat::ApplicationVndOmaLwm2mJson),", "            11543 => Ok(ContentFormat::ApplicationVndOmaLwm2mTlv),\n            11542 => Ok(ContentFormat::ApplicationVndOmaLwm2mJson),"),
                                      (P, "            ContentFormat::ApplicationVndOmaLwm2mTlv => 11542,\n            ContentFormat::ApplicationVndOmaLwm2mJson => 11543,", "            ContentFormat::ApplicationVndOmaLwm2mTlv => 11543,\n            ContentFormat::ApplicationVndOmaLwm2mJson => 11542,")], "two content formats swapped consistently"),
+    m("c05-set-code-detail-unchecked", ["C05"], [(H, "        assert_eq!(0xE0 & detail_code, 0);\n", "")], "set_code accepts a detail above 31 and stores a code of another class (text forms, MC_CodeText)"),
     m("c05-88-89-swapped", ["C05"], [(H, "            0x89 => MessageClass::Response(ResponseType::Conflict),", "            0x88 => MessageClass::Response(ResponseType::Conflict),"),
                                      (H, "            0x88 => {\n                MessageClass::Response(ResponseType::RequestEntityIncomplete)", "            0x89 => {\n                MessageClass::Response(ResponseType::RequestEntityIncomplete)"),
                                      (H, "            MessageClass::Response(ResponseType::Conflict) => 0x89,", "            MessageClass::Response(ResponseType::Conflict) => 0x88,"),
